@@ -15,6 +15,7 @@ import KafkaVerif.Spec.Layout
 import KafkaVerif.Spec.ByteLayout
 import KafkaVerif.Spec.Crc
 import KafkaVerif.Model.ReaderRun
+import KafkaVerif.Model.PullReader
 
 namespace KV.OracleC02
 open KV KV.C02
@@ -354,6 +355,10 @@ def step (line : String) : String :=
         match fieldInt ws "o", fieldInt ws "hwm", fieldInt ws "cut", (field ws "L").bind parseLayout with
         | some o, some hwm, some cut, some items =>
           let (d, off, r) := readAll v expired o hwm (responseTokens items cut)
+          -- the statement-by-statement pull model (Model/PullReader.lean) must agree with the token machine
+          let (pd, poff, pr) := Pull.readAll expired o hwm (responseTokens items cut)
+          if v == .fixed && !(pd == d && poff == off && pr == r) then
+            answer s!"pull-model-differs: {showResult pd poff pr.show} vs {showResult d off r.show}" false else
           let i' := if expired && i.out == "kafka7" then { i with out := "eof" } else i
           answer (showResult d off r.show) (fetchHolds items cut o hwm i' && (!expired || i.out == "kafka7" || i.out == "unexpectedEOF"))
         | _, _, _, _ => "bad-op"
